@@ -169,10 +169,10 @@ Example C13_sequential_nonvacuous :
               RBase (HUnify (TVar 3) (f a)); RKept; RBase (HObs [TVar 1; TVar 3])] in
   Forall (rop_ok 5) ops /\
   exists h outs, rrun 50 (hinit 5) ops = Some (h, outs) /\
-    outs = [HOk; HOk; HAns [f (TVar 7)]; HEnd; HAns [f (TVar 8)]; HOk; HOk;
-            HSeen [TFun (d ".") [f (TVar 6); TAtom (d "[]")]; f a]] /\
-    kept outs = [[f (TVar 7)]; [f (TVar 8)]] /\
-    map (map (den (hs h))) (kept outs) = [[f (TVar 7)]; [f a]].
+    outs = [HOk; HOk; HAns [f (TVar 8)]; HEnd; HAns [f (TVar 9)]; HOk; HOk;
+            HSeen [TFun (d ".") [f (TVar 7); TAtom (d "[]")]; f a]] /\
+    kept outs = [[f (TVar 8)]; [f (TVar 9)]] /\
+    map (map (den (hs h))) (kept outs) = [[f (TVar 8)]; [f a]].
 Proof.
   cbv zeta. split.
   - repeat match goal with
